@@ -2,7 +2,7 @@
    Only statements.  Model: Async/Conn.v.  Proved: the epilogue clause and the reuse clause (Request::close).  The one-call clause over the
    whole loop is decided by the correspondence check + oracle (it is the clause that exposed and now guards
    against finding F3) until its proof completes. *)
-From FV Require Import Base.Bytes Gen.Generated Codec.Header Codec.Bodies Parser.ReqModel Parser.StreamModel Async.Conn Async.ConnWrites Async.ConnLoop Codec.Varint Codec.NV Codec.Vars Parser.ReqWire Parser.ReqTargets Async.ConnTotal Async.ConnReads Async.LoopTargets Async.LoopProofs Async.PeerTargets4 Async.PeerProofs4.
+From FV Require Import Base.Bytes Gen.Generated Codec.Header Codec.Bodies Parser.ReqModel Parser.StreamModel Async.Conn Async.ConnWrites Async.ConnLoop Codec.Varint Codec.NV Codec.Vars Parser.ReqWire Parser.ReqTargets Async.ConnTotal Async.ConnReads Async.LoopTargets Async.LoopProofs Async.PeerTargets4 Async.PeerProofs4 Async.LogTargets Async.LogProofs.
 
 (* Request::close, whenever it ends without an I/O error (reuse, or ConnectionReset because KeepConn was
    not set): after skipping to a record boundary WITHOUT writing anything, it writes exactly the pending
@@ -198,6 +198,33 @@ Theorem C07_requests_in_order :
       (map (fun cp : PeerTargets3.creq * list (bytes * bytes) => sent_request norm (fst cp) (snd cp))
          (combine (map snd cs) pairss)).
 Proof. exact requests_in_order. Qed.
+
+(* the log-keeping loop `run_loop_log` (Async/LogTargets.v) is run_loop with a ghost record per handler
+   invocation; erasing it gives run_loop *)
+Theorem C07_log_is_ghost :
+  forall (norm : bytes -> bytes) (maxc : N) (fuel : nat) (p : parser) (scripts : list (list N))
+    (served_n : nat) (w : world) (acc : list served),
+  fst (run_loop_log norm maxc fuel p scripts served_n w acc) =
+  run_loop norm maxc fuel p scripts served_n w.
+Proof. exact run_loop_log_erase. Qed.
+
+(* MAIN, the transport log of a whole connection, for EVERY client, transport (faults included), handler
+   scripts and buffer size: the handler invocations, in order, each satisfy entry_ok - the log only grows while
+   the handler runs, and when close completed what it appended is some parser replies, then (if the request had
+   become writeable) the empty Stdout and Stderr records, then ONE EndRequest with the invocation's status (the
+   handler's own, or ABORT for the client's abort) and the id of the request the handler was started with,
+   nothing else -, they are chained (an invocation starts after the previous one was closed) and the final log
+   extends the last entry *)
+Theorem C07_connection_log :
+  forall (norm : bytes -> bytes) (maxc : N) (fuel : nat) (p : parser) (scripts : list (list N))
+    (w : world),
+  parser_ok p ->
+  st p = Header ->
+  world_ok w ->
+  let
+  '(_, w', l) := run_loop_log norm maxc fuel p scripts 0 w [] in
+   Forall entry_ok l /\ chained (wlog w) l /\ is_prefix (last_log (wlog w) l) (wlog w').
+Proof. exact connection_log. Qed.
 
 (* non-vacuity of C07_handler_sees_exactly_the_request: a concrete connection (B = 160, a GetValues junk record inside
    the preamble, leftover = 5 bytes, two client segments, Pending reads and writes) satisfies every hypothesis *)
